@@ -94,6 +94,6 @@ def exec (s : Sh) : PC → Sh × Next PC
 def init (cap : Nat) : Sh :=
   { size := nextPow2 cap, seq := fun i => i, ctx := fun _ => none, enqPos := 0, deqPos := 0 }
 
-def algo : Algo := { Sh, PC, start, label, exec }
+@[reducible] def algo : Algo := { Sh, PC, start, label, exec }
 
 end GoaktVerif.Model.C04.Ring
